@@ -79,6 +79,9 @@ def gen_scenario(rng, allow_findings=True, max_events=7, profile=None):
         sc['vmode'] = 'mixed'
     sc['vseed'] = rng.randrange(1 << 30)
     sc['save_every'] = 1
+    # `refresh_event = 1` re-collects the switch times at every accepted step; with unchanged timers this must
+    # be observationally identical to the default
+    sc['refresh_event'] = 1 if rng.random() < 0.25 else 0
     if profile:
         sc.update(profile)
     return sc
@@ -164,6 +167,7 @@ def run_scenario(sc):
     cfg.shrinkt = sc['shrinkt']
     cfg.save_every = sc.get('save_every', 1)
     cfg.criteria = 1
+    cfg.refresh_event = sc.get('refresh_event', 0)
     if 'limit_store' in sc:
         cfg.limit_store = sc['limit_store']
         cfg.max_store = sc['max_store']
